@@ -34,6 +34,7 @@ import (
 	"github.com/santhosh-tekuri/jsonschema/v6"
 
 	"rivaas.dev/openapi"
+	"rivaas.dev/openapi/validate"
 	"verif/harness/c07/corpus"
 	"verif/harness/hx"
 )
@@ -310,6 +311,52 @@ func metaValid(c *caseT, js []byte) bool {
 	}
 	return metaSchema(ver).Validate(doc) == nil
 }
+
+// validatorAgrees probes the repository's own validate.Validator (the wiring `WithValidation(true)`
+// uses) with the produced document and with one damaged variant of it, and compares its verdicts
+// with the direct use of the jsonschema library: a validator that accepts or rejects everything
+// disagrees on one of the two.
+func validatorAgrees(c *caseT, js []byte) bool {
+	ver, vv := "3.0", validate.V30
+	if c.V31 {
+		ver, vv = "3.1", validate.V31
+	}
+	probe := func(doc []byte) bool {
+		direct := false
+		if d, err := jsonschema.UnmarshalJSON(bytes.NewReader(doc)); err == nil {
+			direct = metaSchema(ver).Validate(d) == nil
+		}
+		repo := repoValidator.Validate(context.Background(), doc, vv) == nil
+		return direct == repo
+	}
+	if !probe(js) {
+		return false
+	}
+	var root map[string]any
+	if err := json.Unmarshal(js, &root); err != nil {
+		return false
+	}
+	h := sha256.Sum256(js)
+	switch h[0] % 5 {
+	case 0:
+		delete(root, "info")
+	case 1:
+		root["openapi"] = "2.0"
+	case 2:
+		root["unknownMember"] = 1
+	case 3:
+		root["paths"] = []any{}
+	default:
+		root["info"] = map[string]any{"title": 1}
+	}
+	damaged, err := json.Marshal(root)
+	if err != nil {
+		return false
+	}
+	return probe(damaged)
+}
+
+var repoValidator = validate.New()
 
 // refsResolve: every "$ref" member of the document is a local JSON pointer that resolves.
 func refsResolve(js []byte) bool {
@@ -692,12 +739,12 @@ func emit(id string, c *caseT, st *hx.Stats) string {
 	l.Sep()
 	if pending != nil {
 		// what the supervisor reports if the real code kills the process (fatal stack overflow)
-		pending(in + " => P P 0 0 0" + hx.Comment(c))
+		pending(in + " => P P 0 0 0 1" + hx.Comment(c))
 	}
 
 	off := generate(c, false)
 	on := generate(c, true)
-	mv, rr, stable := false, false, true
+	mv, rr, stable, va := false, false, true, true
 	switch off.kind {
 	case "CP":
 		l.Tok("CP")
@@ -712,6 +759,7 @@ func emit(id string, c *caseT, st *hx.Stats) string {
 		}
 		mv = metaValid(c, off.json)
 		rr = refsResolve(off.json)
+		va = validatorAgrees(c, off.json)
 		// repeated generations: fresh API, fresh operations
 		// (the generation with validation on, compared below, is a further repetition)
 		if c.Pause {
@@ -737,7 +785,7 @@ func emit(id string, c *caseT, st *hx.Stats) string {
 			l.Tok("X")
 		}
 	}
-	l.Bool(mv).Bool(rr).Bool(stable)
+	l.Bool(mv).Bool(rr).Bool(stable).Bool(va)
 	if st != nil {
 		sh := shapes(e)
 		st.Case(in[len(id):], sh.ptrSliceMap || sh.embed2)
@@ -807,7 +855,7 @@ var statuses = []int{200, 200, 201, 204, 400, 404, 500, 202, 301, 418, 503, 599,
 var badStatuses = []int{99, 600, 0, 1000, 42, 777}
 
 func genPath(r *hx.Rand) string {
-	if r.Chance(1, 40) {
+	if r.Chance(1, 90) {
 		return hx.Pick(r, badPaths)
 	}
 	if r.Chance(1, 25) {
@@ -846,6 +894,9 @@ func genPath(r *hx.Rand) string {
 func genTX(r *hx.Rand, d int) TX {
 	switch r.Intn(14) {
 	case 0, 1, 2, 3, 4, 5:
+		if r.Chance(1, 8) { // the da/dup, db/dup types (equal component names) are the last eight entries
+			return TX{K: "corpus", I: len(corpus.Types) - 1 - r.Intn(8)}
+		}
 		return TX{K: "corpus", I: r.Intn(len(corpus.Types))}
 	case 6:
 		if d > 0 {
@@ -979,7 +1030,7 @@ func genOp(r *hx.Rand) opT {
 	n := r.Intn(4)
 	for i := 0; i < n; i++ {
 		st := hx.Pick(r, statuses)
-		if r.Chance(1, 30) {
+		if r.Chance(1, 100) {
 			st = hx.Pick(r, badStatuses)
 		}
 		o.Resps = append(o.Resps, respT{Status: st, T: genTX(r, 2)})
@@ -989,11 +1040,11 @@ func genOp(r *hx.Rand) opT {
 
 func genCase(r *hx.Rand) caseT {
 	c := caseT{V31: r.Chance(1, 2), Strict: r.Chance(1, 3)}
-	n := r.Range(0, 5)
+	n := r.Range(1, 5)
 	if r.Chance(1, 12) {
 		n = r.Range(6, 12)
 	}
-	if r.Chance(1, 30) {
+	if r.Chance(1, 25) {
 		n = 0
 	}
 	for i := 0; i < n; i++ {
